@@ -248,6 +248,37 @@ Theorem C02_dispatch_is_post_rule : forall integ g,
 Proof. exact C02.Prologue.dispatch_is_post_rule_all. Qed.
 Print Assumptions C02_dispatch_is_post_rule.
 
+(* ---------------- edges of the domain ----------------
+   DOMAIN of the theorems above: N_active = -1 (resolved to N before the model is entered) or 0 <= N_active <= N, i.e. a partition
+   of the particles into active ones (index < N_active) and test particles; gravity_ignore_terms in {0,1,2}; N_var = 0.
+   N = 0, 1, 2, N_active = 0 (no active particle: all accelerations 0 for type 0 and for type 1), 1, N-1, N are inside the domain
+   and covered by the theorems (the hypotheses k < N, nact <= N are satisfiable there) and by the enumerated correspondence.
+   What the CODE does at corners the real-number theorems do not speak about (all tied bit-for-bit by the edge cases of the
+   correspondence: coincident particles, +-0, subnormal, huge, inf, NaN coordinates / masses / G / softening / dcrit / dt):
+   - coincident particles with zero softening: _r = 0, prefact = G/0 = inf, inf*0 = NaN in the accelerations of that pair; the
+     theorems over R hold formally there only because Coq's division is total (stated in C02_basic_eq_spec);
+   - zero interior mass sum in the Jacobi recurrences (hypothesis of C02_jacobi_eq_basic_plus_whterm): 1/0 = inf, NaN follows;
+   - root size 0 (hypothesis w <> 0 of C02_tree_theta0_eq_spec): no cell is ever opened (0 > 0 is false);
+   - dcrit <= 0 or d = dcrit = 0 in the changeover functions (hypothesis 0 < dc of C02_L_mercury_ends): y is +-inf or NaN;
+     for NaN both comparisons fail and the polynomial of NaN (NaN) is returned;
+   - gravity_ignore_terms >= 3 (outside the domain): theorem below. *)
+Theorem C02_ignore_terms_out_of_range : forall G eps bx by_ bz nx ny nz nact tp (ps : list (Part R)) k,
+  grav_basic RNum G eps bx by_ bz nx ny nz (3 + k) nact tp ps = grav_basic RNum G eps bx by_ bz nx ny nz 1 nact tp ps /\
+  grav_compensated RNum G eps (3 + k) nact tp ps = grav_compensated RNum G eps 0 nact tp ps.
+Proof. intros. split; reflexivity. Qed.
+Print Assumptions C02_ignore_terms_out_of_range.
+(* N_active = 0: nothing pulls on anything (the specification is the empty sum), for every N, type and ignore_terms *)
+Theorem C02_no_active_particle : forall G eps bx by_ bz nx ny nz ign tp (ps : list (Part R)) k,
+  (ign <= 2)%nat -> (k < length ps)%nat ->
+  nth_d vzero (grav_basic RNum G eps bx by_ bz nx ny nz ign 0 tp ps) k = vzero.
+Proof.
+  intros. rewrite basic_eq_spec by (auto; lia). unfold acc_spec.
+  rewrite VSum_ext with (h := fun _ => vzero); [apply VSum_zero|]. intros g _.
+  rewrite VSum_ext with (h := fun _ => vzero); [apply VSum_zero|]. intros j _.
+  unfold src. cbn [Nat.ltb Nat.leb]. now rewrite andb_false_r, andb_false_r.
+Qed.
+Print Assumptions C02_no_active_particle.
+
 (* Non-vacuity: a 4-body system with a zero-mass body, N_active = 2, ignore_terms = 1 meets the hypotheses,
    and the specified sum for the test particle 3 is not trivially zero. *)
 Example C02_hypotheses_inhabited :
